@@ -207,9 +207,17 @@ def evalL (L : Limits) (env : Env) (root : Msg) : Expr → (part : Nat) → Msg 
           | none => none
           | some t => some (some (t, d))
       | f =>
-        match env.fileTime f with
+        match env.fileTime env.path with
         | none => none
-        | some (t, s) => some (some (t, s))
+        | some sb =>
+          let tim : Int := match f with
+            | .access => sb.atime
+            | .modified => sb.mtime
+            | .created => sb.ctime
+            | .header => 0
+          match env.timeFormat tim with
+          | none => none
+          | some s => some (some (tim, s))
     match dt with
     | none => (.error, st)
     | some none => (.nomatch, st)
